@@ -392,6 +392,47 @@ def rule_history(program, ctx, prop=P, rid="C18.history"):
         ctx.info(rid, m.tree, "no removal from recent_commands at all (C18.bounded covers growth)")
 
 
+def rule_allkept(program, ctx, prop=P, rid="C18.kept"):
+    from ..lib import expand_aliases
+
+    ctx.rule(
+        rid,
+        "RateLimiter.parse_options stores, per scope and command, exactly the list parse_option returned (no pruning of 'redundant' rules: an exemption `-1/hour` is not a "
+        "small limit that dominates `3/s`); and the verb the connection handler dispatches on is the very `message[0]` that is_limited(remote_addr, message) looks up - a "
+        "case-folded / normalised verb is dispatched as EVENT while the limiter finds no rule for 'event'",
+        floor=2,
+    )
+    fn = program.func("nostr_relay.rate_limiter:RateLimiter.parse_options")
+    stores = [s_ for s_ in walk_no_nested(fn) if isinstance(s_, ast.Assign) and isinstance(s_.targets[0], ast.Subscript) and isinstance(s_.value, (ast.Call, ast.Name))]
+    found = False
+    for s_ in stores:
+        v = expand_aliases(fn, s_.value)
+        if isinstance(v, ast.Call) and call_name(v) == "self.parse_option":
+            found = True
+            ctx.ok(rid, s_, f"{norm(s_, 60)}")
+        elif any(isinstance(c, ast.Call) and call_name(c) == "self.parse_option" for c in ast.walk(v)) or (isinstance(s_.value, ast.Name) and "rules" not in dotted(s_.targets[0].value)):
+            if any(isinstance(c, ast.Call) and call_name(c) == "self.parse_option" for c in ast.walk(v)):
+                found = True
+                ctx.bad(finding_at(prop, rid, s_, f"the rules of a command are post-processed (`{ast.unparse(v)[:60]}`) before they are stored: configured rules can be dropped"))
+    if not found:
+        # the value may be built by an inlined helper: any list that is filtered between parse_option and the store
+        pos = [s_ for s_ in walk_no_nested(fn) if isinstance(s_, ast.Assign) and isinstance(s_.value, ast.Call) and call_name(s_.value) == "self.parse_option"]
+        if pos:
+            ctx.bad(finding_at(prop, rid, pos[0], "the list returned by parse_option is not what is stored for the command (it is filtered / rebuilt first): a configured rule can disappear"))
+        else:
+            ctx.bad(finding_func(prop, rid, fn, "parse_options no longer stores parse_option(rule) per command", text="def parse_options(...) :: store"))
+    sc = program.func("nostr_relay.web:start_client")
+    cmd = [s_ for s_ in stores_of(sc, "command") if isinstance(s_, ast.Assign)]
+    if not cmd:
+        ctx.bad(finding_func(prop, rid, sc, "start_client no longer binds `command`", text="def start_client(...) :: command"))
+    for s_ in cmd:
+        if ast.unparse(s_.value) == "message[0]":
+            ctx.ok(rid, s_, "command = message[0] (the limiter's key)")
+        else:
+            ctx.bad(finding_at(prop, rid, s_, f"the dispatched verb is `{ast.unparse(s_.value)[:40]}` while the limiter is asked about the raw message: a verb that differs from its normal form "
+                               "(lower case) is served but matches no rate rule - unlimited EVENTs"))
+
+
 def run(program, ctx):
     from ..lib import rule_awaited
 
@@ -404,6 +445,7 @@ def run(program, ctx):
     rule_cleanup(program, ctx)
     rule_parse(program, ctx)
     rule_history(program, ctx)
+    rule_allkept(program, ctx)
     ctx.not_decided += [
         "the sliding-window invariant itself (never more than n admitted in any window; refused only if some rule is exhausted) - arithmetic over runtime clocks and sequences",
         "rule parsing, IPv6 literals (the precedence test looks for '.' in the key), -1 exemption",
